@@ -1,4 +1,5 @@
 (* Props/C05.v — property C05: retries. *)
+From CV Require Proofs.Compose2.
 From CV Require Proofs.ReviewP.
 From CV Require Proofs.SchedP13.
 From CV Require Import Model.Base Model.Events Model.Attempt Model.Sched Proofs.BaseP Proofs.AttemptP Proofs.SchedP Proofs.SchedP2
@@ -112,3 +113,57 @@ Theorem C05_without_fail_fast_failure_with_retries_left_is_retried :
                :: mid ++ EvScen f r sc (Some (cu+1, l-1)) ScStarted :: post.
 Proof. exact ReviewP.failure_with_retries_left_is_retried_no_ff. Qed.
 Print Assumptions C05_without_fail_fast_failure_with_retries_left_is_retried.
+
+
+(* ---------- SCHEDULER x ATTEMPT (review finding H2) ----------
+   In `Sched.v` the flag of `LAttEnd k failed` and the middle events of an attempt are free labels, so the two theorems
+   above say "retried iff the LABEL said failed". `Compose2.faithful inp ls` requires the labels of every attempt k to be
+   an execution of the attempt model `run_attempt (inp k)` (its events, in order, and its `ao_failed` flag; an attempt in
+   flight has emitted a prefix). Then the flag is what the EVENTS IN THE STREAM show: *)
+Theorem C05_attempt_failed_iff_its_events_show_a_failure :
+  forall i, ao_failed (run_attempt i) = Compose2.failed_evs (ao_events (run_attempt i)).
+Proof. exact Compose2.failed_flag_is_failed_evs. Qed.
+Print Assumptions C05_attempt_failed_iff_its_events_show_a_failure.
+
+Theorem C05_flag_is_what_the_stream_shows :
+  forall c ls s tr inp k b,
+    exec c ls = Some (s, tr) -> Compose2.faithful inp ls -> In (LAttEnd k b) ls ->
+    b = Compose2.failed_evs (SchedP9.out_evs k tr).
+Proof. exact Compose2.flag_is_what_the_stream_shows. Qed.
+Print Assumptions C05_flag_is_what_the_stream_shows.
+
+(* ONLY WHEN, on the stream alone: the Started of attempt cu+1 is preceded by the Finished of attempt cu, and the events
+   of attempt cu in the stream contain a Failed step / hook event (failed step, failed hook or failed World creation) *)
+Theorem C05_retried_attempt_had_visibly_failed :
+  forall c ls s tr inp, exec c ls = Some (s, tr) -> Compose2.faithful inp ls ->
+    forall pre post f r sc cu l,
+      tr = pre ++ EvScen f r sc (Some (cu + 1, l)) ScStarted :: post ->
+      In (EvScen f r sc (Some (cu, l + 1)) ScFinished) pre /\ Compose2.failed_evs (SchedP9.out_evs (sc, cu) pre) = true.
+Proof. exact Compose2.retried_attempt_had_visibly_failed. Qed.
+Print Assumptions C05_retried_attempt_had_visibly_failed.
+
+Theorem C05_passed_attempt_is_never_retried :
+  forall c ls s tr inp sc cu, exec c ls = Some (s, tr) -> Compose2.faithful inp ls ->
+    Compose2.failed_evs (SchedP9.out_evs (sc, cu) tr) = false ->
+    forall f r l, ~ In (EvScen f r sc (Some (cu + 1, l)) ScStarted) tr.
+Proof. exact Compose2.passed_attempt_is_never_retried. Qed.
+Print Assumptions C05_passed_attempt_is_never_retried.
+
+(* WHENEVER, on the stream alone: in a complete run not tripped by fail-fast, an attempt whose events show a failure and
+   whose Finished carries retries left is followed by the Started of the next attempt with (current+1, left-1) *)
+Theorem C05_visible_failure_with_retries_left_is_retried :
+  forall c ls s tr inp, exec c ls = Some (s, tr) -> Compose2.faithful inp ls -> pc s = Done -> flow s <> Break ->
+    forall pre post f r sc cu l,
+      tr = pre ++ EvScen f r sc (Some (cu, l)) ScFinished :: post -> 0 < l ->
+      Compose2.failed_evs (SchedP9.out_evs (sc, cu) tr) = true ->
+      exists mid post', post = mid ++ EvScen f r sc (Some (cu + 1, l - 1)) ScStarted :: post'.
+Proof. exact Compose2.visible_failure_with_retries_left_is_retried. Qed.
+Print Assumptions C05_visible_failure_with_retries_left_is_retried.
+
+(* `faithful` is satisfiable (a run with a retried scenario and hooks), decidable (`faithfulb`), and it excludes exactly the
+   reviewer's counter-examples: a failing step with a retry left whose label says "not failed", and a passed attempt
+   whose label says "failed" *)
+Example C05_faithful_nonvacuous :
+  Compose2.faithful Compose2.cInp Compose2.cLabels /\
+  (forall inp, ~ Compose2.faithful inp Compose2.cx1) /\ (forall inp, ~ Compose2.faithful inp Compose2.cx2).
+Proof. exact (conj Compose2.cLabels_faithful (conj Compose2.cx1_is_unfaithful Compose2.cx2_is_unfaithful)). Qed.
